@@ -65,6 +65,9 @@ fn main() {
             }
         };
         writeln!(out, "({} {} {})", id, call, res).unwrap();
+        // every answer reaches the transcript at once: if a later call takes the whole process down (allocation failure,
+        // abort, stack overflow) the framework sees which case it was and resumes after it
+        out.flush().unwrap();
         results.insert(id, res);
     }
     out.flush().unwrap();
